@@ -1,6 +1,7 @@
 """precis-profiles/src/passwords.rs"""
 from vlib.extract import Fn, Impl, Verbatim, Text, Module, Loop
 from .lib_common import BROADCAST, FACTS
+from .nicknames import fast
 
 HEADER = '''use super::*;
 use crate::vx::*;
@@ -70,4 +71,5 @@ proof {
             Fn('normalization_rule', ret='r', head=FACTS,
                ensures=[('C05.nfc', 'res_view(r) == Ok::<Seq<char>, Error>(spec_nfc(%s))' % S0)]),
         ]),
-    ], header=HEADER)
+    ] + fast('OpaqueString', 'get_opaque_string_profile', 'freeform_prepare(%s)' % S0, 'opaque_enforce(%s)' % S0,
+             'cmp_spec(opaque_enforce(as_ref_view(&s1)), opaque_enforce(as_ref_view(&s2)))'), header=HEADER)
